@@ -231,6 +231,7 @@ def replay(s, data):
 def run(s):
     K.suite_workload(s)
     K.fixtures_workload(s)
+    K.collision_cases(s)
     K.recreate_cases(s)
     K.huge_cases(s, 2 if s.tier == 'quick' else 12)
     K.large_cases(s, 24 if s.tier == 'quick' else 600, 'both')
